@@ -30,6 +30,12 @@ Parameters of the model
   * `skipBlocks` — the option `ctx["skipBlocks"]`; the decision itself (`IsDataCompressed(GetMagicType)`
     or first-order entropy ≥ 973/1024) is modelled: `skipDecision`.
 
+Fix F43 (/repo dfafae0): when `MaxEncodedLen` of the sequence AND the transformed block exceed the decoder's
+bound on the pre-transform length (`maxLengthOf`: `maxTransformLength` of the block size stored in the ctx,
+`Cfg.bs`), the block is handed to the entropy coder untransformed with every stage flagged as skipped
+(`fallback`).  For NONE / ZRLT / MTFT / RANK the branch is never taken on blocks of at most `blockSize`
+bytes (no stage expands); it is there because the model is generic.
+
 Payload of one block (bits, MSB first):
 
     mode 8 | [skipFlags 8, when mode&0x10] | length 8·dataSize | [checksum 32|64] | entropy coded data
@@ -223,6 +229,10 @@ structure Cfg where
   ent : Ent
   /-- `ctx["skipBlocks"]` present and true (encoder only) -/
   skipBlocks : Bool
+  /-- `ctx["blockSize"]` when it is a `uint` (it is for every Writer: `NewWriter` stores its argument,
+  `NewWriterWithCtx` rejects anything else): the block size of the stream, which bounds the
+  post-transform length (encoder only, fix F43); `none` = no such entry: the bound is 2^30 -/
+  bs : Option Nat
 
 inductive EncErr where
   | panic      -- `Log2NoCheck(0)`: the post-transform length is a non-zero multiple of 2^32 (ERR_PROCESS_BLOCK)
@@ -246,27 +256,47 @@ def extraBits : Option Nat → Bits
   | none => []
   | some x => natBits x 8
 
-/-- the payload, given the sequence and the codec actually used for this block (`copy` = the COPY
-mask is set: NONE/NONE forced) and the value `sum` of the checksum field -/
-def encodeWith (copy : Bool) (trs : List Tr) (ent : Ent) (ckw sum : Nat) (data : List Nat) :
-    Except EncErr Bits :=
-  let f := seqForward (fwdStages trs data.length) data
+/-- Go (fix F43, /repo dfafae0): `maxLength` = `maxTransformedLength(ctx["blockSize"])` when that entry is a
+`uint` (`maxTransformedLength` is the decoder's `maxTransformLength`), else `_MAX_BITSTREAM_BLOCK_SIZE` -/
+def maxLengthOf (lim : Option Nat) : Nat :=
+  match lim with
+  | some bs => maxTransformLength bs
+  | none => 2 ^ 30
+
+/-- Go (fix F43): before `t.Forward`, `if requiredSize > maxLength { savedBlock = copy of the block }`
+(`requiredSize` = `MaxEncodedLen` of the sequence; the sequence uses the input buffer as scratch area);
+after it, `if savedBlock != nil && postTransformLength > maxLength` — the transforms expanded the block
+beyond what a decoder accepts: the block is stored untransformed, `copy(buffer, savedBlock)`, and every
+stage is flagged as skipped, `t.SetSkipFlags(0xFF)`.  `f` = (output, skip flags) of `Forward`. -/
+def fallback (lim : Option Nat) (req : Nat) (data : List Nat) (f : List Nat × Nat) : List Nat × Nat :=
+  if req > maxLengthOf lim ∧ f.1.length > maxLengthOf lim then (data, 0xFF) else f
+
+/-- the payload for the block `f.1` handed to the entropy coder with the skip flags `f.2` of a sequence
+of `n` transforms (`copy` = the COPY mask is set) and the value `sum` of the checksum field -/
+def encodeOf (copy : Bool) (n : Nat) (ent : Ent) (ckw sum : Nat) (f : List Nat × Nat) : Except EncErr Bits :=
   let post := f.1.length
   if post ≥ 256 ∧ post % 2 ^ 32 = 0 then .error .panic
   else if dataSizeGen post > 4 then .error .length
   else
     let mode0 := (if copy then 0x80 else 0) ||| (((dataSizeGen post - 1) &&& 3) <<< 5)
-    let em := encodeMode mode0 f.2 trs.length
+    let em := encodeMode mode0 f.2 n
     match ent.enc f.1 with
     | none => .error .entropy
     | some e =>
       .ok (natBits em.1 8 ++ extraBits em.2 ++ natBits post (8 * dataSizeGen post) ++ natBits sum ckw ++ e)
 
+/-- the payload, given the sequence and the codec actually used for this block (`copy` = the COPY
+mask is set: NONE/NONE forced), the value `sum` of the checksum field and `lim` = `ctx["blockSize"]` -/
+def encodeWith (copy : Bool) (trs : List Tr) (ent : Ent) (ckw sum : Nat) (lim : Option Nat) (data : List Nat) :
+    Except EncErr Bits :=
+  encodeOf copy trs.length ent ckw sum
+    (fallback lim (seqMaxLen trs data.length) data (seqForward (fwdStages trs data.length) data))
+
 /-- Go: `encodingTask.encode` from "Compute block checksum" to `obs.Close()`: what is in the
 task-local bitstream (`obs.Written()` bits) -/
 def encodeTaskGen (c : Cfg) (data : List Nat) : Except EncErr Bits :=
-  if isCopy c data then encodeWith true [nullTr] noneEnt (ckWidth c.ck) (checksum c.ck data) data
-  else encodeWith false c.trs c.ent (ckWidth c.ck) (checksum c.ck data) data
+  if isCopy c data then encodeWith true [nullTr] noneEnt (ckWidth c.ck) (checksum c.ck data) c.bs data
+  else encodeWith false c.trs c.ent (ckWidth c.ck) (checksum c.ck data) c.bs data
 
 /-- the payload as a total function of the block (`[]` when the task fails): what the Writer model
 charges for the block (`Writer.Cfg.frameBits`) -/
@@ -368,7 +398,7 @@ def entOf (e : Nat) : Option Ent :=
 
 def cfgOfHeader (h : Header.Header) (skipBlocks : Bool) : Option Cfg :=
   match newSeq h.transformType, entOf h.entropyType with
-  | some trs, some ent => some ⟨32 * h.ckSize, trs, ent, skipBlocks⟩
+  | some trs, some ent => some ⟨32 * h.ckSize, trs, ent, skipBlocks, some h.blockSize⟩
   | _, _ => none
 
 /-! ### whole stream -/
